@@ -4,10 +4,10 @@ CONSTANTS Family = "F5"
  Stride = 1
  Emit = TRUE
  MaxSteps = 400
- ArgOrder = "ltr"
+ ArgOrder = "any"
  Unspec = TRUE
  EmptyFix = TRUE
  PFix = TRUE
  HideFix = TRUE
-INVARIANTS NeverExpandHidden StepBound RescanStable StandardExamples
+INVARIANTS NeverExpandHidden StepBound RescanStable FinalAgree StandardExamples
 CHECK_DEADLOCK FALSE
